@@ -37,7 +37,7 @@ BASIS_CAP = 6_000_000
 def _dims(d, tier):
     if d == 2:
         return {
-            "ext": [[4, 4], [3, 5], [5, 2]],
+            "ext": [[4, 4], [3, 5], [5, 2], [1, 4]],
             "k": [1, 0, 2],
             "kf": [1, 0, 2],
             "M": [[3, 3], [1, 1], [2, 2], [4, 4], [1, 3]] + ([[5, 5]] if tier == "thorough" else []),
